@@ -21,7 +21,7 @@ opts = {"FieldSensitive": fs == "1", "OnDemand": od == "1", "PkgFilter": "", "Us
         "Sanitizers": None, "Validators": None, "ExtraOptions": "", "SpecFiles": None, "SourceMethod": "", "SinkMethod": ""}
 if kind == "c02":
     opts["Sanitizers"] = ["^sanitize1$"]
-    opts["Validators"] = ["^validate1$", "^validateE$"]
+    opts["Validators"] = ["^validate1$", "^validateE$", "^validateT$"]
 json.dump({"observed": [], "valuations": [0, 4095], "variant": "fs=%s od=%s" % (fs, od), "opts": opts}, open(os.path.join(d, "expect.json"), "w"), indent=1)
 json.dump({"property": prop, "signature": os.path.basename(d), "what": what, "kind": kind}, open(os.path.join(d, "violation.json"), "w"), indent=1)
 print("wrote", d)
